@@ -55,7 +55,9 @@ def model_variant(wd, module, cfg, edits, expect_pat, what, extra_cfg=None, edit
     if extra_cfg:
         open(os.path.join(sd, cfg + '.cfg'), 'w').write(extra_cfg)
     md = os.path.join(sd, 'md')
-    rc, out = sh(f"{_java_cmd()} -workers 4 -metadir {md} -config {cfg}.cfg {module}.tla", cwd=sd, timeout=900)
+    os.makedirs(md, exist_ok=True)
+    rc, out = sh(f"{_java_cmd()} -workers 4 -metadir {md} -config {cfg}.cfg {module}.tla".replace("java ", f"java -Djava.io.tmpdir={md} ", 1),
+                 cwd=sd, timeout=900)
     expect(re.search(expect_pat, out) is not None, f"{what}: TLC refutes the broken design ({expect_pat})")
 
 
